@@ -107,7 +107,7 @@ def const_secs(fx, v):
 
 def job_result(p):
     for key, v in p.assume.items():
-        if key.startswith("variant:") and ("handle_task" in key or "JoinHandle" in key or "spawn" in key) and v in ("Ok", "Err"):
+        if key.startswith("variant:") and ("handle_task" in key or "JoinHandle" in key or "spawn" in key or "Updater::run" in key) and v in ("Ok", "Err"):
             return v
     return None
 
@@ -210,6 +210,17 @@ def r2_reset(chk, t, outcomes):
     chk.instance("C19/R2", "every path from job completion to the next interval.tick() resets the timer (%d timer-outcome paths)" % len(ticks), t["def"],
                  loc_of(t.get("sp")), holds=bool(ticks) and not bad, key="C19/R2 task::Loop::start tick-without-reset",
                  detail="with the default burst behaviour a long job would otherwise be followed by an immediate run")
+    # a run that panics is a failed run, not the end of the daemon: the job runs in a task of its own and what is awaited is
+    # handle_task(JoinHandle) — which maps a JoinError (panic) to Err (C04/R5 decides that function)
+    iso = bool(ticks)
+    for p in ticks:
+        sp = p.calls("tokio::spawn") + p.calls("task::spawn")
+        spawned_run = any("Updater::run" in A.vstr(a) or "run(" in A.vstr(a) for c in sp for a in c[2])
+        joined = any(k.startswith("variant:") and "handle_task" in k and ("spawn" in k) for k in p.assume)
+        iso = iso and spawned_run and joined
+    chk.instance("C19/R2", "the job runs in a spawned task joined through handle_task: a panicking run counts as a failed run", t["def"], loc_of(t.get("sp")),
+                 holds=iso, key="C19/R2 task::Loop::start job-not-isolated-from-panic",
+                 detail=None if iso else "awaited in the select loop's own task, a panic in the run unwinds through Loop::start: no retry, no signal handling")
     one = all(len(p.calls("tokio::spawn")) + len(p.calls("task::spawn")) == 1 for p in ticks)
     chk.instance("C19/R2", "at most one job is in flight (the timer outcome spawns one job and awaits it before going round)", t["def"], loc_of(t.get("sp")),
                  holds=bool(ticks) and one and all(p.end == "iter-end" for p in ticks), key="C19/R2 task::Loop::start job-not-awaited")
